@@ -626,10 +626,8 @@ class ImportanceNestedSampler(BaseNestedSampler):
     def final_samples_unit(self) -> np.ndarray:
         if self._final_samples is not None:
             return self._final_samples.samples
-        elif self.iid_samples is not None:
-            return self.iid_samples.samples
         else:
-            return None
+            return self._ordered_samples.samples
 
     @property
     def final_samples(self) -> np.ndarray:
@@ -639,10 +637,8 @@ class ImportanceNestedSampler(BaseNestedSampler):
     def final_state(self) -> _INSIntegralState:
         if self._final_samples is not None:
             return self._final_samples.state
-        elif self.iid_samples is not None:
-            return self.iid_samples.state
         else:
-            return None
+            return self._ordered_samples.state
 
     @property
     def reached_tolerance(self) -> bool:
